@@ -9,13 +9,14 @@ mod reference;
 
 use linfa::traits::Transformer;
 use linfa::{Float, ParamGuard};
+use linfa::DatasetBase;
 use linfa_clustering::{Dbscan, Optics};
 use linfa_nn::distance::{Distance, L1Dist, L2Dist, LInfDist};
 use linfa_nn::CommonNearestNeighbour;
 use lvmc_core::enumerate as en;
 use lvmc_core::refmath::{self, Metric};
 use lvmc_core::{guarded, json, par_sweep, Ctx, Level, Value, Violation};
-use ndarray::{s, Array2, ArrayView2, ShapeBuilder};
+use ndarray::{s, Array2, ArrayBase, ArrayView2, Data, Ix2, ShapeBuilder};
 use reference::{OSample, RefModel};
 use serde::{Deserialize, Serialize};
 use std::sync::atomic::{AtomicU64, Ordering};
@@ -31,9 +32,17 @@ struct Case {
     integer_coords: bool,
     min_points: Vec<usize>,
     /// memory layout in which the SAME logical matrix is handed to the subject:
-    /// "standard" | "col_major" | "reversed_rows_view" | "every_second_row_view"
+    /// "standard" | "col_major" (owned `.f()` array) | "transposed_view" (`.t()` of a feature-major
+    /// array) | "reversed_rows_view" | "every_second_row_view" (filler rows hold poison values)
     #[serde(default = "standard_layout")]
     layout: String,
+    /// 0 = every distinct inter-point distance yields tolerances; k > 0 = only the k smallest
+    /// distinct distances do (large point sets)
+    #[serde(default)]
+    max_distinct: usize,
+    /// also call the dataset form `transform(DatasetBase)` of DBSCAN and demand the same labels
+    #[serde(default)]
+    dataset_form: bool,
 }
 
 fn standard_layout() -> String {
@@ -96,6 +105,50 @@ struct Counters {
     layout_runs: u64,
     layout_runs_compared_with_standard: u64,
     kdtree_documented_noncontiguous_panics: u64,
+    dataset_form_runs: u64,
+    large_n_runs: u64,
+    f32_runs: u64,
+}
+
+type LabelRun = Result<Result<(Vec<Option<usize>>, bool), String>, String>;
+
+/// DBSCAN on `x` exactly as given (owned or view, any strides), array form or
+/// dataset form. Returns the labels and whether the dataset form handed the records back unchanged.
+#[allow(clippy::too_many_arguments)]
+fn label_run<F: Float, D: Distance<F>, S: Data<Elem = F>>(x: &ArrayBase<S, Ix2>, pass_owned: bool, dataset_form: bool, mp: usize, eps: F, dist_fn: &D, kind: &CommonNearestNeighbour) -> LabelRun {
+    guarded(|| {
+        macro_rules! go {
+            ($params:expr) => {{
+                match $params.check() {
+                    Err(e) => Err(e.to_string()),
+                    Ok(p) => {
+                        if !dataset_form {
+                            Ok((p.transform(x).to_vec(), true))
+                        } else if pass_owned {
+                            let out = p.transform(DatasetBase::from(x.to_owned()));
+                            Ok((out.targets().to_vec(), out.records() == x && out.records().strides() == x.strides()))
+                        } else {
+                            let out = p.transform(DatasetBase::from(x.view()));
+                            Ok((out.targets().to_vec(), out.records() == x))
+                        }
+                    }
+                }
+            }};
+        }
+        go!(Dbscan::params_with::<F, D, CommonNearestNeighbour>(mp, dist_fn.clone(), kind.clone()).tolerance(eps))
+    })
+}
+
+fn clip(mut s: String) -> String {
+    if s.len() > 1500 {
+        let mut k = 1500;
+        while !s.is_char_boundary(k) {
+            k -= 1;
+        }
+        s.truncate(k);
+        s.push_str("...");
+    }
+    s
 }
 
 /// A violation found inside a case; the (expensive) case JSON is attached by `to_violation`.
@@ -134,7 +187,7 @@ fn to_f64<F: Float>(x: F) -> f64 {
 
 /// Tolerances of a case: class A strictly between consecutive distinct inter-point distances (plus
 /// one below the smallest positive and one above the largest), class B exactly each distance.
-fn tolerances(dist: &[Vec<f64>], tol: f64) -> Vec<(f64, &'static str)> {
+fn tolerances(dist: &[Vec<f64>], tol: f64, max_distinct: usize) -> Vec<(f64, &'static str)> {
     let n = dist.len();
     let mut ds: Vec<f64> = Vec::new();
     for i in 0..n {
@@ -156,6 +209,16 @@ fn tolerances(dist: &[Vec<f64>], tol: f64) -> Vec<(f64, &'static str)> {
         return vec![(1.0, "A_no_positive_distance")];
     }
     let mut out = vec![(distinct[0] / 2.0, "A_below_min")];
+    if max_distinct > 0 && distinct.len() > max_distinct {
+        // large point sets: the k smallest distinct distances only (the midpoint above the k-th included)
+        for w in distinct[..max_distinct + 1].windows(2) {
+            out.push(((w[0] + w[1]) / 2.0, "A_midpoint"));
+        }
+        for &x in &distinct[..max_distinct] {
+            out.push((x, "B_exact"));
+        }
+        return out;
+    }
     for w in distinct.windows(2) {
         out.push(((w[0] + w[1]) / 2.0, "A_midpoint"));
     }
@@ -184,9 +247,11 @@ fn run_typed<F: Float, D: Distance<F> + 'static>(case: &Case, dist_fn: D, only: 
     let reversed: Array2<F> = Array2::from_shape_fn((n, d), |(i, j)| batch[(n - 1 - i, j)]);
     let doubled: Array2<F> = Array2::from_shape_fn((2 * n, d), |(i, j)| if i % 2 == 0 { batch[(i / 2, j)] } else { F::from(1000.0 + (i * 7 + j) as f64).unwrap() });
     let nonstandard = case.layout != "standard";
+    let feature_major: Array2<F> = Array2::from_shape_fn((d, n), |(j, i)| batch[(i, j)]);
     let input: ArrayView2<F> = match case.layout.as_str() {
         "standard" => batch.view(),
         "col_major" => col_major.view(),
+        "transposed_view" => feature_major.t(),
         "reversed_rows_view" => reversed.slice(s![..;-1, ..]),
         "every_second_row_view" => doubled.slice(s![..;2, ..]),
         other => panic!("unknown layout {}", other),
@@ -215,7 +280,7 @@ fn run_typed<F: Float, D: Distance<F> + 'static>(case: &Case, dist_fn: D, only: 
         }
     };
 
-    let mut eps_list: Vec<(Option<f64>, &'static str)> = tolerances(&dist, tol).into_iter().map(|(e, c)| (Some(e), c)).collect();
+    let mut eps_list: Vec<(Option<f64>, &'static str)> = tolerances(&dist, tol, case.max_distinct).into_iter().map(|(e, c)| (Some(e), c)).collect();
     eps_list.push((None, "default_infinite"));
 
     for &mp in &case.min_points {
@@ -253,38 +318,69 @@ fn run_typed<F: Float, D: Distance<F> + 'static>(case: &Case, dist_fn: D, only: 
                         cnt.zero_feature_runs += 1;
                     }
                     let mut found: Vec<(String, String)> = Vec::new();
-                    if algo == "dbscan" {
+                    if n > 1000 {
+                        cnt.large_n_runs += 1;
+                    }
+                    if is32 {
+                        cnt.f32_runs += 1;
+                    }
+                    if algo != "optics" {
                         cnt.dbscan_runs += 1;
-                        let run = |x: &ArrayView2<F>| {
-                            guarded(|| {
-                                Dbscan::params_with::<F, D, CommonNearestNeighbour>(mp, dist_fn.clone(), kind.clone())
-                                    .tolerance(eps_f)
-                                    .check()
-                                    .map(|p| p.transform(x).to_vec())
-                                    .map_err(|e| e.to_string())
-                            })
+                        // the column-major case is handed over as the OWNED array, everything else as a view
+                        let run = |dataset_form: bool, standard: bool| -> LabelRun {
+                            if standard {
+                                label_run(&batch, true, dataset_form, mp, eps_f, &dist_fn, kind)
+                            } else if case.layout == "col_major" {
+                                label_run(&col_major, true, dataset_form, mp, eps_f, &dist_fn, kind)
+                            } else {
+                                label_run(&input, false, dataset_form, mp, eps_f, &dist_fn, kind)
+                            }
                         };
-                        let res = run(&input);
+                        let res = run(false, !nonstandard);
                         if nonstandard {
                             cnt.layout_runs += 1;
                         }
-                        let documented = nonstandard && *kname == "kdtree" && rows_noncontiguous && matches!(&res, Err(p) if p.contains("views should be contiguous"));
-                        if documented {
+                        let is_documented = |r: &LabelRun| nonstandard && *kname == "kdtree" && rows_noncontiguous && matches!(r, Err(p) if p.contains("views should be contiguous"));
+                        if case.dataset_form {
+                            cnt.dataset_form_runs += 1;
+                            let ds = run(true, !nonstandard);
+                            match (&res, &ds) {
+                                (Ok(Ok((a, _))), Ok(Ok((b, same)))) => {
+                                    if a != b {
+                                        found.push((format!("{}.dataset_form_differs", algo), format!("transform(&records) gives {:?} but transform(DatasetBase::from(records)) gives {:?}", a, b)));
+                                    } else if !same {
+                                        found.push((format!("{}.dataset_form_changes_records", algo), "the dataset returned by transform(DatasetBase) does not carry the records it was given".to_string()));
+                                    }
+                                }
+                                (a, b) if is_documented(a) && is_documented(b) => {}
+                                (a, b) => {
+                                    let short = |r: &LabelRun| match r {
+                                        Ok(Ok(_)) => "labels".to_string(),
+                                        Ok(Err(e)) => format!("Err({})", e),
+                                        Err(p) => format!("panic({})", p),
+                                    };
+                                    if short(a) != short(b) {
+                                        found.push((format!("{}.dataset_form_differs", algo), format!("array form ends in {} but dataset form ends in {}", short(a), short(b))));
+                                    }
+                                }
+                            }
+                        }
+                        if is_documented(&res) {
                             cnt.kdtree_documented_noncontiguous_panics += 1;
                             continue;
                         }
                         if nonstandard {
-                            if let (Ok(Ok(got)), Ok(Ok(std))) = (&res, &run(&batch.view())) {
+                            if let (Ok(Ok((got, _))), Ok(Ok((std, _)))) = (&res, &run(false, true)) {
                                 cnt.layout_runs_compared_with_standard += 1;
                                 if got != std {
-                                    found.push(("dbscan.layout_dependence".into(), format!("the same matrix in layout {} gives {:?}, in standard layout {:?}", case.layout, got, std)));
+                                    found.push((format!("{}.layout_dependence", algo), format!("the same matrix in layout {} gives {:?}, in standard layout {:?}", case.layout, got, std)));
                                 }
                             }
                         }
                         match res {
-                            Err(p) => found.push((format!("dbscan.panic.{}", kname), format!("DBSCAN on {} samples panicked: {}", n, p))),
-                            Ok(Err(e)) => found.push(("dbscan.valid_params_rejected".into(), format!("min_points {} / tolerance {} rejected: {}", mp, eps64, e))),
-                            Ok(Ok(labels)) => {
+                            Err(p) => found.push((format!("{}.panic.{}", algo, kname), format!("{} on {} samples panicked: {}", algo, n, p))),
+                            Ok(Err(e)) => found.push((format!("{}.valid_params_rejected", algo), format!("min_points {} / tolerance {} rejected: {}", mp, eps64, e))),
+                            Ok(Ok((labels, _))) => {
                                 if d == 0 {
                                     // deliberate branch of the subject (BuildError::ZeroDimension): nothing clusters
                                     if labels.len() != n || labels.iter().any(|l| l.is_some()) {
@@ -367,7 +463,7 @@ fn run_typed<F: Float, D: Distance<F> + 'static>(case: &Case, dist_fn: D, only: 
                                 cnt.class_b_runs_with_point_exactly_on_tolerance += 1;
                             }
                         }
-                        if algo == "dbscan" {
+                        if algo != "optics" {
                             let all_core_one = st.clusters == 1 && model.core.iter().all(|&c| c);
                             if st.clusters >= 1 && !all_core_one {
                                 cnt.nontrivial += 1;
@@ -389,7 +485,7 @@ fn run_typed<F: Float, D: Distance<F> + 'static>(case: &Case, dist_fn: D, only: 
                         }
                     }
                     for (sig, what) in found {
-                        viols.push(Found { sig, what: format!("[{} {} {} {} {} n={} min_points={} tolerance={} ({})] {}", algo, kname, case.metric, case.float, case.layout, n, mp, eps64, eps_class, what), at: at.clone() });
+                        viols.push(Found { sig, what: clip(format!("[{} {} {} {} {} n={} min_points={} tolerance={} ({})] {}", algo, kname, case.metric, case.float, case.layout, n, mp, eps64, eps_class, what)), at: at.clone() });
                     }
                 }
                 // ---- independence of the neighbour index: bit-identical outputs ----
@@ -399,10 +495,10 @@ fn run_typed<F: Float, D: Distance<F> + 'static>(case: &Case, dist_fn: D, only: 
                         if db_out.iter().any(|o| o.1 != db_out[0].1) {
                             viols.push(Found {
                                 sig: "dbscan.index_dependence".into(),
-                                what: format!(
+                                what: clip(format!(
                                     "[dbscan {} {} n={} min_points={} tolerance={} ({})] labelling depends on the neighbour index: {:?}",
                                     case.metric, case.float, n, mp, eps64, eps_class, db_out
-                                ),
+                                )),
                                 at: at_all.clone(),
                             });
                         }
@@ -416,10 +512,10 @@ fn run_typed<F: Float, D: Distance<F> + 'static>(case: &Case, dist_fn: D, only: 
                             let sig = if op_out[0].0 == "linear" && others_agree && linear_unsorted { "optics.index_dependence.linear_unsorted_core_distance" } else { "optics.index_dependence" };
                             viols.push(Found {
                                 sig: sig.into(),
-                                what: format!(
+                                what: clip(format!(
                                     "[optics {} {} n={} min_points={} tolerance={} ({})] analysis depends on the neighbour index: {:?}",
                                     case.metric, case.float, n, mp, eps64, eps_class, op_out
-                                ),
+                                )),
                                 at: at_all.clone(),
                             });
                         }
@@ -473,7 +569,10 @@ fn main() {
     ctx.assume("core and reachability distances are compared with relative tolerance 1e-9 (f64) / 1e-4 (f32); labels, orderings and the cross-index comparison (bit-identical outputs of the three indices) are exact");
     ctx.assume("OPTICS reachability is only required to be undefined or max(core(o), d(o,p)) for SOME core o within the tolerance listed no later than p (o = p allowed), as the statement says; minimality over all predecessors and the visiting order are not demanded");
     ctx.assume("zero-feature matrices: the subject deliberately maps BuildError::ZeroDimension to 'nothing clusters' (DBSCAN all noise, OPTICS every sample once with undefined distances); this boundary input is checked for exactly that behaviour on all indices, not against the distance-0 reading of the definition");
-    ctx.assume("memory layout: the 2-D / 3-D lattice families are additionally passed as a column-major array, as a reversed-rows view of a reversed copy and as an every-second-row view of a larger array (logically the same matrix, asserted); each run must satisfy the same oracle AND equal the standard-layout result bit for bit; only for the k-d tree on an input whose rows are not contiguous the documented panic ('views should be contiguous', rustdoc of linfa_nn::KdTree) is accepted instead - nothing else");
+    ctx.assume("AppxDbscan is a type alias of Dbscan in this tree (linfa-clustering/src/lib.rs; the old appx_dbscan module is not compiled), so it has no separate run");
+    ctx.assume("DBSCAN is also called in the dataset form transform(DatasetBase::from(records)) on the layout and n=1025 families: same labels as the array form, records handed back unchanged; OPTICS only has the array-view form");
+    ctx.assume("n = 1025 families use the tolerances derived from the 3 smallest distinct inter-point distances only (plus the OPTICS default infinite tolerance)");
+    ctx.assume("memory layout: the 2-D / 3-D lattice families and the n=1025 grid are additionally passed as a column-major owned array, as the transposed view of a feature-major array, as a reversed-rows view of a reversed copy and as an every-second-row view of a larger array whose filler rows hold poison values (logically the same matrix, asserted); each run must satisfy the same oracle AND equal the standard-layout result bit for bit; only for the k-d tree on an input whose rows are not contiguous the documented panic ('views should be contiguous', rustdoc of linfa_nn::KdTree) is accepted instead - nothing else");
     ctx.assume("min_points >= 2 and tolerance > 0 only (the parameter guards are C04's subject); finite coordinates");
 
     // ---------------- enumerate cases ----------------
@@ -591,14 +690,61 @@ fn main() {
     for ps in &sets {
         for f in ps.floats {
             for m in ps.metrics {
-                let layouts: &[&str] = if ps.layouts { &["standard", "col_major", "reversed_rows_view", "every_second_row_view"] } else { &["standard"] };
+                // quick tier: the (largest) lattice3x3 family gets its extra layouts in f64 only and no dataset form
+                let slim = !thorough && ps.family == "lattice3x3";
+                let layouts: &[&str] = if ps.layouts && !(slim && *f == "f32") { &["standard", "col_major", "transposed_view", "reversed_rows_view", "every_second_row_view"] } else { &["standard"] };
                 for l in layouts {
                     *per_family.entry(if *l == "standard" { ps.family.to_string() } else { format!("{}@{}", ps.family, l) }).or_default() += 1;
-                    cases.push(Case { family: ps.family.into(), points: ps.points.clone(), dim: ps.dim, float: (*f).into(), metric: (*m).into(), integer_coords: ps.integer, min_points: ps.min_points.to_vec(), layout: (*l).into() });
+                    cases.push(Case { family: ps.family.into(), points: ps.points.clone(), dim: ps.dim, float: (*f).into(), metric: (*m).into(), integer_coords: ps.integer, min_points: ps.min_points.to_vec(), layout: (*l).into(), max_distinct: 0, dataset_form: ps.layouts && !slim });
                 }
             }
         }
     }
+    // G: n = 1025 (> 1024): queues, seed lists and tree depths at scale. One case per min_points value so
+    // that the sweep can spread them over the cores; tolerances from the 3 smallest distinct distances.
+    // G1: 41 x 25 unit grid whose right part (x >= 20) is shifted by one (two big clusters that merge
+    //     once the tolerance exceeds 2), three grid points replaced by far-away noise, rows permuted
+    let grid_big: Vec<Vec<f64>> = (0..1025usize)
+        .map(|k| {
+            let g = (k * 7) % 1025;
+            let (x, y) = (g / 25, g % 25);
+            if g < 3 {
+                vec![200.0 + 50.0 * g as f64, 300.0]
+            } else {
+                vec![(x + if x >= 20 { 1 } else { 0 }) as f64, y as f64]
+            }
+        })
+        .collect();
+    // G2: a 5-point pattern replicated 205 times on a coarse grid (pitch 10), copies interleaved
+    let pattern = [[0.0, 0.0], [1.0, 0.0], [2.0, 0.0], [2.0, 1.0], [0.0, 2.0]];
+    let replicated: Vec<Vec<f64>> = (0..1025usize)
+        .map(|k| {
+            let (copy, e) = (k % 205, k / 205);
+            vec![pattern[e][0] + 10.0 * (copy / 14) as f64, pattern[e][1] + 10.0 * (copy % 14) as f64]
+        })
+        .collect();
+    let mut big: Vec<(&'static str, &Vec<Vec<f64>>, &'static str, &'static str, &'static str)> = Vec::new(); // family, points, float, metric, layout
+    for l in ctx.pick(&["standard", "col_major"][..], &["standard", "col_major", "transposed_view", "reversed_rows_view", "every_second_row_view"][..]) {
+        for m in ctx.pick(L2_ONLY, ALL_METRICS) {
+            big.push(("grid41x25_shifted_n1025", &grid_big, "f64", m, l));
+        }
+    }
+    big.push(("grid41x25_shifted_n1025", &grid_big, "f32", "L2", "standard"));
+    if ctx.thorough() {
+        big.push(("grid41x25_shifted_n1025", &grid_big, "f32", "L2", "transposed_view"));
+        big.push(("pattern5_x205_n1025", &replicated, "f64", "L2", "standard"));
+        big.push(("pattern5_x205_n1025", &replicated, "f64", "L2", "every_second_row_view"));
+        big.push(("pattern5_x205_n1025", &replicated, "f32", "L2", "standard"));
+    }
+    for (fam, pts, f, m, l) in big {
+        for &mp in MP_LARGE {
+            *per_family.entry(if l == "standard" { fam.to_string() } else { format!("{}@{}", fam, l) }).or_default() += 1;
+            cases.push(Case { family: fam.into(), points: pts.clone(), dim: 2, float: f.into(), metric: m.into(), integer_coords: true, min_points: vec![mp], layout: l.into(), max_distinct: 3, dataset_form: true });
+        }
+    }
+    // the n = 1025 cases are the longest single work items: swept on their own first (a handful of
+    // items, one per core) so that they do not end up in one sequential chunk of the big sweep
+    let (big_cases, small_cases): (Vec<Case>, Vec<Case>) = cases.iter().cloned().partition(|c| c.points.len() > 1000);
     ctx.extra("point_sets", json!(sets.len()));
     ctx.extra("cases_enumerated", json!(cases.len()));
     ctx.extra("cases_per_family", json!(per_family));
@@ -610,7 +756,7 @@ fn main() {
     // driver keeps are always complete.
     const FULL_PER_SIG: u64 = 16;
     let delivered: std::sync::Mutex<std::collections::HashMap<String, u64>> = Default::default();
-    par_sweep(&ctx, "density clustering sweep", &cases, |c| {
+    let work = |c: &Case| {
         let mut v = Vec::new();
         let cnt = run_case(c, None, &mut v);
         ctx.evals(cnt.evals, cnt.nontrivial);
@@ -644,10 +790,15 @@ fn main() {
             t.layout_runs += cnt.layout_runs;
             t.layout_runs_compared_with_standard += cnt.layout_runs_compared_with_standard;
             t.kdtree_documented_noncontiguous_panics += cnt.kdtree_documented_noncontiguous_panics;
+            t.dataset_form_runs += cnt.dataset_form_runs;
+            t.large_n_runs += cnt.large_n_runs;
+            t.f32_runs += cnt.f32_runs;
         }
         done.fetch_add(1, Ordering::Relaxed);
         ctx.sample(|| json!({"family": c.family, "points": c.points, "float": c.float, "metric": c.metric, "min_points": c.min_points, "layout": c.layout}));
-    });
+    };
+    par_sweep(&ctx, "density clustering sweep (n = 1025)", &big_cases, &work);
+    par_sweep(&ctx, "density clustering sweep", &small_cases, &work);
     let t = total.lock().unwrap().clone();
     let completed = done.load(Ordering::Relaxed);
     ctx.extra("cases_completed", json!(completed));
@@ -670,5 +821,8 @@ fn main() {
     ctx.extra("nonstandard_layout_runs", json!(t.layout_runs));
     ctx.extra("nonstandard_layout_runs_compared_bitwise_with_standard_layout", json!(t.layout_runs_compared_with_standard));
     ctx.extra("kdtree_documented_noncontiguous_row_panics_accepted", json!(t.kdtree_documented_noncontiguous_panics));
+    ctx.extra("dataset_form_runs_compared_with_array_form", json!(t.dataset_form_runs));
+    ctx.extra("runs_with_n_1025", json!(t.large_n_runs));
+    ctx.extra("f32_runs", json!(t.f32_runs));
     ctx.finish(&replay_value);
 }
